@@ -203,7 +203,7 @@ func (c14) Enumerate(tier string, seed int64, yield func(string, core.Case) bool
 			return emit(fam, p, 0, false)
 		case "pb2n3":
 			pbn++
-			if pbn%23 == 0 || thorough {
+			if pbn%23 == 0 || (thorough && pbn%3 == 0) {
 				if !withCosts(fam, p, 3, 0, false) {
 					return false
 				}
